@@ -31,6 +31,12 @@ claimed = {
   text="Decides the error-discipline clauses for every fault position at once: (errdrop) for each of the ~340 calls of a fallible I/O primitive or of a module function that can return an I/O error on the write paths (header.Write, Font.Write*, cff.Font.Write) and read paths (sfnt.Read, header.Read, table readers, parser), the error value flows to a return (possibly wrapped) or panic of the caller — deferred or discarded calls are violations; (bytecount) in header.Write a forward must-analysis shows that at every return the count includes the result of every Write executed so far, including padding writes, and each Write's error is tested with an immediate return; pass-through functions return the callee's count and error together; (sortfirst) no element of a locally sorted slice is read before the sort (header.Read's end-of-file probe uses the sorted table list). A dropped error or unaccumulated n is exactly a fault position at which the call succeeds or mis-reports. Level 'other'.",
   note="Trusted: go/types, go/ssa, VTA reachability, the list of I/O primitives and in-memory sinks (*bytes.Buffer, *strings.Builder, hash), 1 reviewed entry (deferred Close of a read-only file). Not covered: that truncated *content* is detected by each table decoder (overlaps C02), behaviour of short writes inside the destination.",
   ref="DESIGN.md §3 E7, §4 C18"),
+ "C20": dict(
+  technique="static typestate/discipline rules on go/ssa for name slots and the used-set (control dependence + value identity), regexp-literal evaluation, order-sensitivity analysis (mapdet)",
+  engine="nameslots",
+  text="Decides structural clauses of the glyph-name statement in MakeGlyphNames, cff.makeNames, makeVariant and PostScriptName: (once) every store of a name into a slot after the used-set exists is control-dependent on an emptiness test of the same slot (existing unique names are kept); (used) every stored name comes from the variant helper or is stored under !used[name] and recorded on the same path, and (variant) the helper records every name it returns (pairwise distinct); (notdef) slot 0 is named .notdef before the used-set is built; (fallback) numbered placeholders fill remaining slots; (mapdet) no name is handed out in map-iteration order ('asking again returns the same names'); (psname) the returned PostScript name is directly ReplaceAllString(family+subfamily, "") with a character class whose complement, computed from the parsed literal, lies inside the PostScript-name alphabet. These hold for every font and every pattern of missing/duplicate names, which tests only sample. Level 'other'.",
+  note="Trusted: go/types, go/ssa, regexp/syntax (used only to parse the literal; no library code is executed). Not covered: that inferred names are the right AGL names; installing names (EnsureGlyphNames) beyond determinism. A re-implementation of the sanitiser by other means than a regexp replacement is reported as undecided.",
+  ref="DESIGN.md §3 E12, §4 C20"),
 }
 
 pending_reason = "not claimed yet: the engines this property needs are still being built (DESIGN.md §9 build order); no check is registered until it runs exact on the unchanged tree"
@@ -63,6 +69,7 @@ engines = [
  {"name": "sharedwrite", "path": "sfntlint/effects.go, sfntlint/c16.go, sfntlint/externals.go", "serves_properties": ["C16"], "kind_free_text": "interprocedural write-effect / ownership analysis on go/ssa (E6)"},
  {"name": "errflow", "path": "sfntlint/errflow.go, sfntlint/c18.go", "serves_properties": ["C18", "C17"], "kind_free_text": "error value-flow and byte-count must-analysis (E7)"},
  {"name": "c15rules", "path": "sfntlint/c15.go, sfntlint/ssahelp.go", "serves_properties": ["C15", "C07"], "kind_free_text": "control-dependence, CFG ordering and buffer-provenance rules"},
+ {"name": "nameslots", "path": "sfntlint/c20.go", "serves_properties": ["C20"], "kind_free_text": "write-once / used-set discipline, .notdef ordering, PostScript-name regexp evaluation (E12)"},
  {"name": "mapdet", "path": "sfntlint/mapdet.go, sfntlint/props_det.go", "serves_properties": ["C01", "C07", "C08", "C09", "C13", "C15", "C20"], "kind_free_text": "order-sensitivity analysis of map iteration, clock and scheduling sources (E5)"},
 ]
 for e in engines:
